@@ -6,7 +6,7 @@ import RpmVerif.Model.Fs
 * `noDotDot`, `noBelowLink`, `threeKinds` : syntactic classes of hostile input (used by the driver to name
   the class of a regression: `dotdot-escape`, `symlink-follow-escape`, `special-type-panic`);
 * `benign`      : "built package" — additionally no duplicates, parents listed in DIRNAMES, files
-  and links not used as directories;
+  and links not used as directories, no name longer than `NAME_MAX`;
 * `Faithful`    : every entry is at destination+path with its content, permission bits, link target.
 -/
 namespace RpmVerif.Extract
@@ -50,6 +50,10 @@ def threeKinds (inp : Input) : Bool := inp.items.all (fun it => it.kind ≠ .oth
 /-- all prefixes of the directory names' components (the directories pre-created by `extract`) -/
 def inDirnames (ds : List Bytes) (p : List Name) : Bool := ds.any (fun d => p.isPrefixOf (compsD d))
 
+/-- every component of every directory name and entry path is a name a file system takes (≤ `NAME_MAX` = 255 bytes):
+with a longer one `mkdir` / `open` / `symlink` answer `ENAMETOOLONG` and the entry cannot be created by anybody -/
+def shortNames (inp : Input) : Bool := (allTexts inp).all (fun s => (compsD s).all (fun c => decide (c.length ≤ nameMax)))
+
 /-- a well-behaved ("built") package -/
 def benign (inp : Input) : Bool :=
   match inp.dirnames with
@@ -65,7 +69,8 @@ def benign (inp : Input) : Bool :=
         -- parent listed in DIRNAMES; the path itself is nobody's directory
         (inDirnames ds (compsD it.path).dropLast && !inDirnames ds (compsD it.path) &&
           inp.items.all (fun d => !(d.kind = .dir && (compsD it.path).isPrefixOf (compsD d.path))) &&
-          (it.kind ≠ .symlink || !it.linkto.isEmpty)))
+          (it.kind ≠ .symlink || !it.linkto.isEmpty))) &&
+    shortNames inp
 
 /-- nothing that is not the destination or below it differs -/
 def Contained (T : Path) (fs fs' : Fs) : Prop := ∀ q, ¬ T <+: q → fs'.get q = fs.get q
